@@ -18,7 +18,8 @@
    [dels i t] = the (listener, event) pairs delivered by invocation [i], in
    order; [notified i t] = their listeners. *)
 From Coq Require Import ZArith List Bool Arith.
-From PV Require Import PubSub.Model PubSub.SubsProofs PubSub.EventProofs PubSub.Proofs PubSub.OpsProofs.
+From PV Require Import PubSub.Model PubSub.SubsProofs PubSub.EventProofs PubSub.Proofs PubSub.OpsProofs
+  PubSub.TypeModel PubSub.TypeProofs.
 Import ListNotations.
 
 (* ====================================================================== *)
@@ -311,6 +312,58 @@ Proof. exact fire_timed_delivers_timestamp. Qed.
 Print Assumptions C08_fire_timed_delivers_its_timestamp.
 
 (* ====================================================================== *)
+(* 6. EventType: what "declares payload metadata" means                    *)
+(* ====================================================================== *)
+(* EventType(name, metadata) called from defining site [site] with the set
+   [reg] of already used (site, name) keys creates a type iff name is a str,
+   the key is unused, and metadata is None or every key is a str and every
+   value a type ([encode m]); the type then carries exactly that declaration. *)
+Theorem C08_event_type_created_iff :
+  forall reg site name md e,
+    snd (make_event_type reg site name md) = EtOk e <->
+    exists n, name = NameStr n /\ ~ In (site, n) reg /\
+      ((md = None /\ e = mkEType site n None) \/
+       (exists m, md = Some (encode m) /\ e = mkEType site n (Some m))).
+Proof. exact event_type_created_iff. Qed.
+Print Assumptions C08_event_type_created_iff.
+
+(* a declaration is refused exactly when some key is not a str or some value
+   is not a type *)
+Theorem C08_declaration_ok_iff :
+  forall d, (exists m, check_decl d = inr m) <-> Forall entry_decl_ok d.
+Proof. exact check_decl_ok_iff. Qed.
+Print Assumptions C08_declaration_ok_iff.
+
+(* in every sequence of constructions (accepted and refused interleaved, from
+   any registry) no two created event types share (defining site, name) *)
+Theorem C08_created_event_types_unique :
+  forall reg cs, NoDup (map et_key (created (snd (make_types reg cs)))).
+Proof. exact created_types_unique. Qed.
+Print Assumptions C08_created_event_types_unique.
+
+(* pinned behaviour, modelled faithfully: the key is registered before the
+   metadata is looked at, so any second attempt with the same site and name
+   is refused as a duplicate - also when the first one was refused because
+   of its metadata *)
+Theorem C08_event_type_second_attempt_refused :
+  forall reg site n md md',
+    snd (make_event_type (fst (make_event_type reg site (NameStr n) md)) site (NameStr n) md')
+    = EtErr EDuplicate.
+Proof. exact second_attempt_refused. Qed.
+Print Assumptions C08_event_type_second_attempt_refused.
+
+(* end to end: a type created with declaration m (a Python dict: unique keys)
+   accepts exactly the payloads acceptable for m *)
+Theorem C08_created_type_checks_its_declaration :
+  forall reg site n m e c chk,
+    NoDup (map fst (encode m)) -> payload_wf c ->
+    snd (make_event_type reg site (NameStr n) (Some (encode m))) = EtOk e ->
+    et_md e = Some m /\
+    ((exists ev, make_event (env_of [e]) (Good 0) c chk = MkOk ev) <-> acceptable (Some m) c chk).
+Proof. exact created_type_checks_its_declaration. Qed.
+Print Assumptions C08_created_type_checks_its_declaration.
+
+(* ====================================================================== *)
 (* Non-vacuity: a history with re-entrant listeners and nested firing      *)
 (* ====================================================================== *)
 Definition ex_pay (n : nat) : content := mkContent n (SNonDict TInt).
@@ -368,3 +421,18 @@ Proof.
   split; [repeat constructor; cbn; intuition discriminate|].
   repeat split; try (eexists; reflexivity); reflexivity.
 Qed.
+
+(* EventType constructions: accepted, duplicate, not-a-str name, bad key, bad
+   value, and the name that stays reserved after a metadata refusal *)
+Example C08_example_event_types :
+  snd (make_types []
+        [ (0, NameStr 0, None);
+          (0, NameStr 0, None);
+          (1, NameStr 0, Some [(KStr 0, VType TInt)]);
+          (0, NameNotStr, None);
+          (0, NameStr 1, Some [(KNotStr, VType TInt)]);
+          (0, NameStr 1, None);
+          (0, NameStr 2, Some [(KStr 0, VType TInt); (KStr 1, VNotType)]) ])
+  = [ EtOk (mkEType 0 0 None); EtErr EDuplicate; EtOk (mkEType 1 0 (Some [(0, TInt)]));
+      EtErr ENameNotStr; EtErr EKeyNotStr; EtErr EDuplicate; EtErr EValueNotType ].
+Proof. reflexivity. Qed.
